@@ -64,8 +64,8 @@ def run(ctx):
 
 # ------------------------------------------------------------------------------------------ T1
 
-def t1(ctx, facts):
-    r = ctx.rule("T1", "near attack tables equal the geometric definition")
+def t1(ctx, facts, rid="T1"):
+    r = ctx.rule(rid, "near attack tables equal the geometric definition")
     specs = [
         ("owlchess::attack::KING_ATTACKS", lambda s: geom.leaper(s, geom.KING_DELTAS)),
         ("owlchess::attack::KNIGHT_ATTACKS", lambda s: geom.leaper(s, geom.KNIGHT_DELTAS)),
